@@ -137,6 +137,9 @@ typecompatible(struct type *t1, struct type *t2)
 		e2 = t2->u.array.length;
 		if (e1 && e2 && e1->kind == EXPRCONST && e2->kind == EXPRCONST && e1->u.constant.u != e2->u.constant.u)
 			return false;
+		/* arrays made by the compiler (string literals, __func__, completed initializers) carry no length expression */
+		if ((!e1 || !e2) && !(t1->prop & PROPVM) && !(t2->prop & PROPVM) && t1->size != t2->size)
+			return false;
 		goto derived;
 	case TYPEFUNC:
 		if (t1->u.func.isvararg != t2->u.func.isvararg)
